@@ -178,6 +178,53 @@ def gen_plan(rng, opts, spec, faults, idx):
     return plan, placed
 
 
+SAFE_CALLBACKS = ['copy', 'copy-solve', 'deepcopy', 'eval', 'export', 'reindex', 'iter', 'bad_call', 'bad_call', 'label']
+
+
+def gen_callbacks(rng, spec, opts, tn=None, kinds=SAFE_CALLBACKS):
+    """User code that calls back into the library from inside a hook or an evaluation pass (re-entrant use)."""
+    n, lags, leads = spec['span']['n'], spec['lags'], spec['leads']
+    out = []
+    for _ in range(rng.choice([1, 1, 2])):
+        hook = rng.choice(['before', 'eval', 'eval', 'after'])
+        cb = {'hook': hook, 'k': rng.randint(1, max(1, min(opts['max_iter'], 3))) if hook == 'eval' else 1, 'when': rng.choice(['pre', 'post'])}
+        what = rng.choice(kinds)
+        if what == 'copy-solve':
+            cb.update(what='copy', solve=True)
+        elif what == 'eval':
+            names = spec['endo'] + spec['exo']
+            cb.update(what='eval', expr=rng.choice(['{a} * 2', '{a} + {a}', 'lag({a})', '{a}[0]']).replace('{a}', rng.choice(names)))
+        elif what == 'bad_call':
+            cb.update(what='bad_call', how=rng.choice(['window', 'offset', 'position']))
+        elif what == 'nested_solve':
+            others = [p_ for p_ in range(lags, n - leads) if p_ != tn]
+            if tn is None or not others:
+                continue
+            cb.update(what='nested_solve', tn2=rng.choice(others))
+        elif what == 'label':
+            cb.update(what='label', pos=rng.randrange(max(1, n)))
+        else:
+            cb['what'] = what
+        out.append(cb)
+    return out
+
+
+def neutralise_callbacks(plan, snap, post, ctx=None, tn=None):
+    """What a callback did on its own account (the user's doing) is taken out of the judged state: the period a nested solve
+    went to, the variables a callback added."""
+    for p_ in (plan or {}).values():
+        for cb in (p_ or {}).get('cb', ()):
+            if ctx is not None:
+                ctx.probe('callback:' + cb['what'] + ('+solve' if cb.get('solve') else '') + ':' + cb['hook'])
+            if cb['what'] == 'nested_solve' and cb['tn2'] != tn:
+                for nm in post:
+                    if nm in snap and 0 <= cb['tn2'] < len(post[nm]):
+                        post[nm][cb['tn2']] = snap[nm][cb['tn2']]
+            if cb['what'] == 'add_variable':
+                for nm in [x for x in post if x.startswith('CB') and x not in snap]:
+                    post.pop(nm)
+
+
 def gen_solve_op(rng, spec, variant, idx, tier):
     faults = variant != 'solver'
     n, lags, leads = spec['span']['n'], spec['lags'], spec['leads']
@@ -205,6 +252,8 @@ def gen_solve_op(rng, spec, variant, idx, tier):
         'opts': opts,
         'plan': {'*': plan},
     }
+    if spec['kind'] == 'scripted' and rng.random() < 0.12 and not spec.get('dtype'):
+        plan['cb'] = gen_callbacks(rng, spec, opts, tn, SAFE_CALLBACKS + ['nested_solve', 'nested_solve', 'add_variable'])
     mix = spec.get('mixins') or []
     if 'progress' in mix:
         op['pb'] = rng.choice([None, False, True, True])  # the progress-bar keyword: omitted / off / on
@@ -563,6 +612,9 @@ def do_solve(m, span, spec, op, endo, check, exo, ctx, step):
     except Exception as e:
         out = {'kind': 'raise', 'exc': e}
     post = ref_solver.snapshot(m)
+    neutralise_callbacks(op.get('plan'), snap, post, ctx, tn)
+    for what_, res_ in ctl.callbacks:
+        ctx.fault('callback-into-library') if res_ == 'ok' else ctx.fault('callback-into-library-raised')
     if op.get('trace'):
         # the tracer's own record is where a traced call writes by design (also the 'start' entry of a call that is
         # then rejected); the frame is about the model's series
